@@ -486,7 +486,9 @@ class Checker:
             sigs = ["C16/unclassified-bulk(more than 300 unexplained failing cases in one shard)"]
         for sig in sigs:
             self.st.violation(
-                sig, {"events": list(events)}, gfx.fl(exp), obs if exc is None else gfx.exc_sig(exc),
+                sig, {"events": list(events), "stream": gfx.program(events),
+                      "pdf": make_doc([gfx.program(events)]) if self.st.viol_counts[sig] < self.st.MAX_VIOL_PER_SIG else b""},
+                gfx.fl(exp), obs if exc is None else gfx.exc_sig(exc),
                 f"{what}: differs in {','.join(bad)}" + (f" (explained by {len(sigs)} causes together)" if len(sigs) > 1 else ""),
             )
 
